@@ -127,11 +127,24 @@ pub struct Case {
     pub seed: u64,
 }
 
+fn builtin_table() -> &'static Vec<F> {
+    static T: std::sync::OnceLock<Vec<F>> = std::sync::OnceLock::new();
+    T.get_or_init(dusk_plonk::verif::compress_builtin_scalars)
+}
+
 fn emphasised_ops() -> BoxedStrategy<Vec<Op>> {
     // unused witnesses, allocation order != first-use order, repeated and
-    // distinct selector tuples, selectors 0/+-1, zero-valued public inputs,
+    // distinct selector tuples, selectors 0/+-1 and entries of the built-in constant table, zero-valued public inputs,
     // public inputs on the first and last row
-    let gate = (proptest::array::uniform5(prog::coeff()), [any::<u16>(), any::<u16>(), any::<u16>(), any::<u16>()], prog::pi_strategy())
+    // selectors equal to entries of the codec's built-in constant table
+    let table_coeff = prop_oneof![
+        3 => prog::coeff(),
+        2 => any::<u16>().prop_map(|i| {
+            let t = builtin_table();
+            Fe(t[pick(i, t.len())])
+        }),
+    ];
+    let gate = (proptest::array::uniform5(table_coeff), [any::<u16>(), any::<u16>(), any::<u16>(), any::<u16>()], prog::pi_strategy())
         .prop_map(|(q, w, pi)| Op::Gate { q, qc: Fe(F::zero()), w, pi });
     let op = prop_oneof![
         5 => fe_any().prop_map(Op::Wit),
@@ -356,6 +369,6 @@ pub fn props() -> Vec<(Box<dyn PropDyn>, u32, u32)> {
 }
 
 pub fn describe(ctx: &Ctx) {
-    ctx.rule("cases: generated programs emphasising unused witnesses, allocation order != first-use order, repeated and distinct selector tuples, selectors 0/+-1, zero-valued public inputs, public inputs on the first and last row, sizes around 2^k-6, x labels x every capacity in minimal-8..=minimal+8 (non powers of two included). Oracle: direct and compressed routes succeed for exactly the same capacities with byte-identical Prover and Verifier; hand-built encodings of the same circuit (own MessagePack+deflate encoder: sparse witness labels, reversed polynomial table) compile to the same keys; 14 hostile description kinds (more constraints than capacity, out-of-range polynomial/scalar/witness/public-input indices, unsorted/duplicate public-input rows, trailing bytes after the MessagePack value / the deflate stream, 64 MiB deflate bomb, 2^32-1 declared entries, non-canonical scalar, zero witnesses, truncated payload) are refused with an error, without panic, with per-thread peak allocation <= 2x a legitimate maximal-capacity compile + 1 MiB. non-trivial = more than the fixed rows and capacity within 8 of the threshold; distinct by (layout digest, capacity, label)");
-    ctx.assume("built-in Hades constant table entries are not generated (the table is private); base entries 0, 1, -1 are");
+    ctx.rule("cases: generated programs emphasising unused witnesses, allocation order != first-use order, repeated and distinct selector tuples, selectors 0/+-1 and entries of the built-in constant table, zero-valued public inputs, public inputs on the first and last row, sizes around 2^k-6, x labels x every capacity in minimal-8..=minimal+8 (non powers of two included). Oracle: direct and compressed routes succeed for exactly the same capacities with byte-identical Prover and Verifier; hand-built encodings of the same circuit (own MessagePack+deflate encoder: sparse witness labels, reversed polynomial table) compile to the same keys; 14 hostile description kinds (more constraints than capacity, out-of-range polynomial/scalar/witness/public-input indices, unsorted/duplicate public-input rows, trailing bytes after the MessagePack value / the deflate stream, 64 MiB deflate bomb, 2^32-1 declared entries, non-canonical scalar, zero witnesses, truncated payload) are refused with an error, without panic, with per-thread peak allocation <= 2x a legitimate maximal-capacity compile + 1 MiB. non-trivial = more than the fixed rows and capacity within 8 of the threshold; distinct by (layout digest, capacity, label)");
+    ctx.assume("selectors equal to built-in table entries are drawn from the table the crate exposes through the verif hook (values only; their indices are never used)");
 }
